@@ -49,6 +49,7 @@ type Engine struct {
 	globalRefs []string
 	extraTerms []*Term
 	symMode    int
+	pendingFree map[string]Value
 	obls      []*Obligation
 	assumpLog map[string]bool
 	errors    []string
